@@ -761,6 +761,9 @@ def check_record_layout(ck, rule, prog, wbody, rbody, owner_rx, label, reader_in
         offs = sorted(int(o) for o, _ in accs)
         width = len(offs)
         consecutive = offs == list(range(width))
+        if len(accs) == 1 and accs[0][1]["kind"] != "one" and accs[0][1]["pos"] in R._decoded_ranges() and offs == [0]:
+            # `u32_from_bytes(&bytes[idx..])`: one sub-slice per element, decoded as a big-endian u32
+            width, consecutive = 4, True
         lp = rbody.loop_of(accs[0][1]["bb"])
         steps = []
         for kind, dpos, d in R.pv.defs(rbody).get(L, []):
